@@ -68,7 +68,13 @@ func cmdVerify(args []string) {
 	timeout := fs.Int("timeout", 10, "solver timeout (s)")
 	dump := fs.Bool("dump", false, "dump queries of unproved obligations to /tmp/govc-dump")
 	verbose := fs.Bool("v", false, "verbose")
+	facets := fs.String("facet", "", "comma-separated contract facets to activate")
 	fs.Parse(args)
+	for _, f := range strings.Split(*facets, ",") {
+		if f != "" {
+			ActiveFacets[f] = true
+		}
+	}
 	p, e := loadAll()
 	var frs []*FuncResult
 	for _, pat := range fs.Args() {
@@ -103,6 +109,9 @@ func printResult(fr *FuncResult, verbose bool) {
 	}
 	if fr.SpecError != "" {
 		fmt.Printf("   SPEC ERROR: %s\n", fr.SpecError)
+	}
+	for _, d := range fr.Degraded {
+		fmt.Printf("   DEGRADED: %s\n", d)
 	}
 	for _, u := range fr.Unknown {
 		fmt.Printf("   unknown call: %s\n", u)
